@@ -23,14 +23,14 @@ Proof.
   eapply st_step_trans; [apply H; left; reflexivity|]. apply IH. intros y s' Hy. apply H. right. exact Hy.
 Qed.
 
-Lemma visit_step g : forall fuel f s, st_step s (visit fuel g f s).
+Lemma gvisit_step succ : forall fuel f s, st_step s (gvisit fuel succ f s).
 Proof.
   induction fuel as [|k IH]; intros f [vis ord]; simpl; [apply st_step_refl|].
   destruct (memn f vis) eqn:E; [apply st_step_refl|].
   apply memn_false in E.
-  pose proof (fold_step (fun (r : nat * bool) s => visit k g (fst r) s) (f_recs (getf g f))
-                (fun x s _ => IH (fst x) s) (f :: vis, ord)) as [A [B C]].
-  destruct (fold_left _ (f_recs (getf g f)) (f :: vis, ord)) as [vis' ord'] eqn:EF. simpl in *.
+  pose proof (fold_step (fun y s => gvisit k succ y s) (succ f)
+                (fun x s _ => IH x s) (f :: vis, ord)) as [A [B C]].
+  destruct (fold_left _ (succ f) (f :: vis, ord)) as [vis' ord'] eqn:EF. simpl in *.
   unfold st_step, st_inv in *; simpl in *. split; [|split].
   - intros x Hx. apply A. right. exact Hx.
   - intros [ND IN].
@@ -44,13 +44,17 @@ Proof.
     + right. exact E.
 Qed.
 
-Lemma reachable_files_nodup g : NoDup (reachable_files g).
+(* the post-order walk never lists a node twice (any graph, any fuel) *)
+Lemma postorder_nodup fuel succ roots : NoDup (postorder fuel succ roots).
 Proof.
-  unfold reachable_files.
-  pose proof (fold_step (fun e s => visit (S (nfiles g)) g e s) (0%nat :: g_user g)
-                (fun x s _ => visit_step g (S (nfiles g)) x s) ([], [])) as [_ [B _]].
+  unfold postorder.
+  pose proof (fold_step (fun e s => gvisit fuel succ e s) roots
+                (fun x s _ => gvisit_step succ fuel x s) ([], [])) as [_ [B _]].
   destruct B as [ND _]; [split; simpl; [constructor | intros x []]|]. exact ND.
 Qed.
+
+Lemma reachable_files_nodup g : NoDup (reachable_files g).
+Proof. apply postorder_nodup. Qed.
 
 Lemma chunk_files_nodup_lemma g a c : analyse g = Some a -> In c (a_chunks a) -> NoDup (c_files c).
 Proof.
